@@ -10,15 +10,15 @@ CLAIMS = {
  'C01': dict(text="Coq theorems, for every well-formed header: the units the GENERATED producers (NumPy route, segyio route, reduced-I/O reader) hand to the compressor are, in queue order, exactly the units the specification places at positions 0,1,2,.. of the data section; every cell of the padded cube is the edge-replicated source sample; hence the unit consulted for a real voxel is the ZFP code of the source unit containing it, independent of blockshape/route. Partial: the codec is abstract (structural assumption validated against zfpy), 2D is C09, VDS/ZGY routes not modelled.",
              note="ZFP structural assumption; np.pad/numpy slicing hand-modelled; queue FIFO order from C16; oracle = bitwise comparison with an independent encoder on every run",
              technique="Coq proof (mixed-radix enumeration) over a producer model regenerated from source + differential correspondence + independent-encoder oracle"),
- 'C02': dict(text="Machine-checked theorems (Coq) that the read methods, as GENERATED from read.py/loader.py, return exactly the specification decoder's cells for all well-formed headers and in-range arguments; partial: proved for inline, crossline and z-slice reads of the default layout, the remaining paths are covered by the correspondence check (model = implementation = specification decoder) only.",
-             note="codec abstract (provenance); translator + Lib/Py.v semantics trusted; correspondence model=implementation on every run",
-             technique="Coq proof over a model regenerated from source + differential correspondence"),
+ 'C02': dict(text="Machine-checked theorems (Coq), for every well-formed header and all in-range arguments, that the read methods as GENERATED from read.py/loader.py return exactly the specification decoder's cells: inline, crossline, z-slice (default layout: Props/C02.v), read_subvolume and read_volume in the default layout (C02a) and in every layout with any padding (C02b), get_trace and trace windows in both layouts, both diagonal readers with all 16 shapes of their cropping arguments, completeness/distinctness of the diagonal enumeration (C02c); by-number / by-coordinate entry points by oracle (coords.py). Samples are provenance (unit, cell), the codec is abstract.",
+             note="codec abstract (provenance); translator + Lib/Py.v semantics trusted; correspondence model=implementation on every run; specification-only decoder as oracle",
+             technique="Coq proof over a model regenerated from source + differential correspondence + specification-decoder oracle"),
  'C03': dict(text="Coq theorems: (version) the encoding GENERATED from version.py is a bijection on all majors and strictly monotone for the release order, gates mean what the specification says; (container, converters) for every valid setting and cube the header fields GENERATED from make_header state the true dimensions/rate/blockshape/trace count, the header is well-formed (one block = 4096 bytes), the stated disk blocks are exactly padded voxels x bits / 8 = unit bytes x the number of units the producers write (C01), and the footer stride both write_headers use equals the stride the GENERATED reader derives for post-0.2.1 files, so array k sits where the reader looks. Cropper / re-blocker conformance: C10 / C12. Known finding D19 (version strings without a patch component).",
              note="string constructor is a hand model pinned to the source text; compositions of writers covered by the container harness (spec-only decoder) and by C10/C12 preserving well-formedness",
              technique="Coq proof (arithmetic) over generated header fields + correspondence + specification-only decoder oracle on every writer and composition"),
- 'C07': dict(text="Coq theorems on the generated read plans (exactly which ranges are issued: inline, crossline, z-slice of the default layout) + exact comparison of observed range reads with the model for all paths",
-             note="I/O traces compared after coalescing adjacent ranges",
-             technique="Coq proof over generated read plans + I/O trace correspondence"),
+ 'C07': dict(text="Coq theorems on the GENERATED read plans, for every well-formed header: exactly which ranges are issued by inline / crossline / z-slice reads (default layout), sub-volumes, traces and trace windows (every layout: C07a, C07b) and that no range repeats within a call; opening touches only header blocks; with preload the data section is requested exactly once in the whole session whatever follows; the range-read choke point issues one request or none; file and blob backends issue the same (offset, length); regenerating a trace header of a regular file requests exactly word t of each stored array once (after the D42 repair; refuted-witness theorem for the unrepaired loop); within one diagonal call no chunk is fetched twice for any LRU capacity >= 1 (C07c). Observed (offset, length) sequences of a counting file are compared with the model and an independent block oracle on every run.",
+             note="I/O traces compared after coalescing adjacent ranges; requests are those seen above read_range; lru_cache semantics hand-modelled; blob backend executed against an in-memory stand-in only",
+             technique="Coq proof over generated read plans and file-access census + I/O trace correspondence + block-set oracle"),
  'C14': dict(text="Coq theorems, for EVERY header and argument tuple: an argument outside the real extent makes the generated read method raise IndexError / WrongDim; in-range half is C02",
              note="guards are generated from read.py on every run",
              technique="Coq proof over generated guards + differential correspondence"),
